@@ -22,7 +22,7 @@ var cacheInteresting = map[string]bool{
 	"exp.PackageData": true, "exp.ControlData": true, "expanded.PackageData": true, "expanded.ControlData": true,
 	"a.datahash": true, "checkSums": true, "sw.Next": true, "sw.CloseFile": true, "tarfile.Close": true, "uf.Close": true,
 	"tmp.Close": true, "bw.Flush": true, "a.cachedPackage": true, "a.cachePackage": true, "a.FetchPackage": true,
-	"expandapk.ExpandApk": true, "w.CloseFile": true,
+	"expandapk.ExpandApk": true, "w.CloseFile": true, "a.verifyExpanded": true, "exp.Close": true,
 }
 
 func callSkeleton(rel, name string) []string {
